@@ -70,6 +70,10 @@ var (
 		member{"T", "Tuple", "", stc("tuple", fd("X", shInt), fd("Y", shInt))},
 		member{"J", "Joined", "", &shape{kind: "struct", repr: "stringjoin", join: ":", fields: []fld{fd("A", shStr), fd("B", shStr)}}},
 		member{"N", "Int", "", shInt})
+	shUKM = uni("kinded",
+		member{"S", "OptS", "", stc("map", fo("A", shStr), fd("C", shStr))},
+		member{"T", "OptT", "", stc("tuple", fd("X", shInt), fo("Y", shInt))},
+		member{"N", "Int", "", shInt})
 	shMood  = &shape{kind: "enum", repr: "string", enum: map[string]interface{}{"Happy": "happy", "Sad": "sad"}}
 	shLevel = &shape{kind: "enum", repr: "int", enum: map[string]interface{}{"Low": int64(1), "High": int64(2)}}
 	fiveOpt = []fld{fo("A", shInt), fo("B", shInt), fo("C", shInt), fo("D", shInt), fo("E", shInt)}
@@ -125,6 +129,7 @@ var shapes = map[string]*shape{
 	"HasMapN":      stc("map", fd("M", &shape{kind: "map", elem: shInt, elemNul: true}), fd("LL", lst(lst(shStr, false), false)), fn("NL", lst(shInt, false))),
 	"HasMapOpt":    stc("map", fd("M", mpo(stc("map", fo("A", shStr), fd("L", lst(shInt, false)), fd("M", mpo(shInt)))))),
 	"OptColl":      stc("map", fo("L", lst(shStr, false)), fn("B", shBytes), fo("M", mpo(shInt)), fn("NL", lst(shInt, false)), fo("OB", shBytes), fd("Z", shInt)),
+	"HasUKM":       stc("map", fd("A", shUKM), fd("B", shUKM), fd("C", shUKM), fd("D", shUKM)),
 	"HasUK2":       stc("map", fd("A", shUK2), fd("B", shUK2), fd("C", shUK2), fd("D", shUK2)),
 	"BigU":         stc("map", fd("U", shInt), fd("L", lst(shInt, false)), fd("N", lst(lst(shInt, false), false))),
 	"pk1.Foo":      stc("map", fd("A", shStr), fd("N", shInt)),
